@@ -190,7 +190,7 @@ fn grammar_module(s: &GSpec, out: &mut String) {
         let _ = writeln!(out, "            name: {:?}, entry: true,", n);
         let _ = writeln!(
             out,
-            "            typed: {{ fn run<'i>(req: &::obs::Req<'i>) -> ::obs::Obs {{ ::obs::{}::<'i, t::Rule, {}, {}>(req, tid) }} run }},",
+            "            typed: {{ fn run<'i>(req: &::obs::Req<'i>) -> ::obs::Obs {{ ::obs::{}::<'i, t::Rule, {}, {}, t::P>(req, tid) }} run }},",
             observe, ty1, ty0
         );
         if s.compare {
